@@ -351,6 +351,169 @@ theorem impersonation_through_kube {κ : Type} {g : Fixes} (hg : g.comma = true)
   rw [this]
   exact classify_spiffe _
 
+/-- The transport gate of `security.Authenticate`: a connection whose AuthInfo is not `credentials.TLSInfo`
+    (none at all, or any other kind: ALTS, local credentials, ...) gets no certificate unless
+    XDS_AUTH_PLAINTEXT is set - whatever the authenticators would say; they are not even called (so a
+    panicking one cannot matter). -/
+theorem not_tls_no_certificate {κ : Type} (g : Fixes) (encode : CertData → κ) (srv : Server) (ctx : Ctx)
+    (results : List AuthRes) (req : Request) (now : Int) (htls : ctx.tls = false) (hplain : ctx.authPlaintext = false) :
+    createCertificateFull g encode srv ctx results req now = .err .unauthenticated := by
+  simp [createCertificateFull, Ctx.authenticating, htls, hplain]
+
+/-- A chain prefix in which no authenticator succeeds (and none panics) does not change the outcome. -/
+theorem runAuthenticators_append_none {pre rest : List AuthRes} (h : runAuthenticators pre = .none) :
+    runAuthenticators (pre ++ rest) = runAuthenticators rest := by
+  induction pre with
+  | nil => rfl
+  | cons r rs ih =>
+    cases r with
+    | crash => simp [runAuthenticators] at h
+    | nil => simp only [runAuthenticators, List.cons_append] at h ⊢; exact ih h
+    | err => simp only [runAuthenticators, List.cons_append] at h ⊢; exact ih h
+    | ok c =>
+      simp only [runAuthenticators, List.cons_append] at h ⊢
+      by_cases hc : (!c.identities.isEmpty) = true
+      · simp [hc] at h
+      · simp only [hc] at h ⊢
+        exact ih h
+
+/-- Impersonation through ANY chain of authenticators (istiod's: client certificate, Kubernetes JWT or
+    OIDC, XFCC): a certificate issued WITH impersonation implies that the FIRST authenticator that
+    returned a caller with identities - the one whose result counts - returned pod information that
+    passes the whole gate on the active node authorizer of the request's cluster; the certificate's SAN
+    is exactly the impersonated identity, a URI SAN. -/
+theorem impersonation_through_chain {κ : Type} {g : Fixes} (hg : g.comma = true) {encode : CertData → κ} {decode : κ → CertData}
+    (hdec : ∀ d, decode (encode d) = d) {srv : Server} {ctx : Ctx} {results : List AuthRes} {req : Request} {now : Int}
+    {chain : List (Entry κ)} (himp : req.impersonated ≠ "")
+    (h : createCertificateFull g encode srv ctx results req now = .ok chain) :
+    ∃ caller na slot all itd ns sa cp d,
+      runAuthenticators results = .some caller ∧ AuthRes.ok caller ∈ results ∧
+      srv.nodeAuth = some na ∧ (caller.kube.podNamespace, caller.kube.podSA) ∈ na.trusted ∧
+      lookupCluster (clusterID ctx) na.clusters = some slot ∧ slot.active = some all ∧
+      parseIdentity req.impersonated = some (itd, ns, sa) ∧
+      (informerPods all).find? (fun p => p.name = caller.kube.podName ∧ p.ns = caller.kube.podNamespace) = some cp ∧
+      cp.uid = caller.kube.podUID ∧ cp.sa = caller.kube.podSA ∧
+      (∃ p ∈ informerPods all, p.node ≠ "" ∧ p.sa ≠ "" ∧ p.ns = ns ∧ p.sa = sa ∧ p.node = cp.node) ∧
+      leafData decode (.ok chain) = some d ∧ d.tmpl.san = [.uri req.impersonated] := by
+  have hnc : runAuthenticators results ≠ .crash := by
+    intro hc
+    unfold createCertificateFull at h
+    split at h
+    · simp at h
+    · simp [hc] at h
+  have ha : ctx.authenticating = true := by
+    unfold createCertificateFull at h
+    split at h
+    · simp at h
+    · rename_i hh; simpa using hh
+  rw [full_eq_scripted g encode srv ctx _ req now hnc] at h
+  obtain ⟨caller, na, slot, all, hc, hna, hs, hl, hact, htr, itd, ns, sa, hp, cp, hcp, huid, hsa, hnode⟩ :=
+    impersonation_gate h himp
+  rw [authenticate_of_authenticating ha] at hc
+  obtain ⟨caller', sans', d, hc', hs', hld, hsan⟩ := san_exact_encoded hg hdec h
+  rw [authenticate_of_authenticating ha, hc] at hc'
+  cases hc'
+  rw [hs] at hs'
+  cases hs'
+  have key := firstCaller_toOut results
+  split at key
+  · rename_i hcr; exact absurd hcr hnc
+  · rw [key] at hc; simp at hc
+  · rename_i c hrun
+    rw [key.1] at hc
+    cases hc
+    refine ⟨caller, na, slot, all, itd, ns, sa, cp, d, hrun, key.2.2, hna, htr, hl, hact, hp, hcp, huid, hsa, hnode, hld, ?_⟩
+    rw [hsan]
+    have hpre := parseIdentity_sound hp
+    simp only [List.map_cons, List.map_nil, List.cons.injEq, and_true]
+    rw [hpre]
+    have : "spiffe://" ++ itd ++ "/ns/" ++ ns ++ "/sa/" ++ sa =
+        String.ofList ("spiffe://".toList ++ (itd ++ "/ns/" ++ ns ++ "/sa/" ++ sa).toList) := by
+      apply String.toList_injective
+      simp [String.toList_append, String.toList_ofList]
+    rw [this]
+    exact classify_spiffe _
+
+/-- The multi-authenticator counterpart of `impersonation_through_kube`: the Kubernetes-JWT authenticator
+    anywhere in the chain, behind authenticators that did not succeed (e.g. the client-certificate
+    authenticator for a peer without certificate), in front of any others.  Same conclusion: token
+    reviewed by the API server selected for the cluster ID whose node authorizer the gate consults, etc. -/
+theorem impersonation_through_kube_chain {κ : Type} {g : Fixes} (hg : g.comma = true) {encode : CertData → κ} {decode : κ → CertData}
+    (hdec : ∀ d, decode (encode d) = d) {srv : Server} {ctx : Ctx} {req : Request} {now : Int} {chain : List (Entry κ)}
+    {pre post : List AuthRes} {c : Caller}
+    {t : Transport} {td : String} {cfg : KubeCfg} {hdr : Option (List String)} {vals aud : List String}
+    {api : ReviewCall → Review} (himp : req.impersonated ≠ "")
+    (ht : t = .grpc) (hhdr : hdr = ctx.clusterIDs)
+    (hpre : runAuthenticators pre = .none)
+    (hk : (kubeAuthenticate t td cfg hdr vals aud api).1 = .ok c)
+    (h : createCertificateFull g encode srv ctx (pre ++ (kubeAuthenticate t td cfg hdr vals aud api).1 :: post) req now = .ok chain) :
+    ∃ tok cl k na slot all itd ns sa cp d,
+      extractToken t vals = some tok ∧ getKubeClient cfg (clusterID ctx) = some cl ∧
+      tokenReviewResult (api { client := cl, token := tok, audiences := aud }) = some k ∧
+      srv.nodeAuth = some na ∧ (k.podNamespace, k.podSA) ∈ na.trusted ∧
+      lookupCluster (clusterID ctx) na.clusters = some slot ∧ slot.active = some all ∧
+      parseIdentity req.impersonated = some (itd, ns, sa) ∧
+      (informerPods all).find? (fun p => p.name = k.podName ∧ p.ns = k.podNamespace) = some cp ∧
+      cp.uid = k.podUID ∧ cp.sa = k.podSA ∧
+      (∃ p ∈ informerPods all, p.node ≠ "" ∧ p.sa ≠ "" ∧ p.ns = ns ∧ p.sa = sa ∧ p.node = cp.node) ∧
+      leafData decode (.ok chain) = some d ∧ d.tmpl.san = [.uri req.impersonated] := by
+  have hpair : kubeAuthenticate t td cfg hdr vals aud api = (.ok c, (kubeAuthenticate t td cfg hdr vals aud api).2) := by
+    rw [← hk]
+  obtain ⟨tok, cl, k, htok, hcl, _, hkr, _, _, hcal⟩ := kube_identity_from_review hpair
+  obtain ⟨caller, na, slot, all, itd, ns, sa, cp, d, hrun, _, hna, htr, hl, hact, hp, hcp, huid, hsa, hnode, hld, hsan⟩ :=
+    impersonation_through_chain hg hdec himp h
+  have hwin : caller = c := by
+    rw [runAuthenticators_append_none hpre, hk] at hrun
+    have hne : (!c.identities.isEmpty) = true := by rw [hcal]; rfl
+    simp only [runAuthenticators, hne, if_true, AuthRun.some.injEq] at hrun
+    exact hrun.symm
+  have hk2 : caller.kube = k := by rw [hwin, hcal]
+  rw [hk2] at htr hcp huid hsa
+  have hid : clusterIDOf t hdr = clusterID ctx := by
+    subst ht; subst hhdr
+    unfold clusterIDOf clusterID
+    cases ctx.clusterIDs with
+    | none => rfl
+    | some l =>
+      match l with
+      | [] => rfl
+      | [x] => rfl
+      | _ :: _ :: _ => rfl
+  rw [hid] at hcl
+  exact ⟨tok, cl, k, na, slot, all, itd, ns, sa, cp, d, htok, hcl, hkr, hna, htr, hl, hact, hp, hcp, huid, hsa, hnode, hld, hsan⟩
+
+/-- Callers authenticated by the client-certificate, OIDC or XFCC authenticator carry no pod information
+    (`KubernetesInfo` is empty), so for them the gate can only pass if the EMPTY namespace / service
+    account pair were configured as a trusted node account: with a sane configuration impersonation is
+    reserved to callers of the Kubernetes-JWT authenticator. -/
+theorem impersonation_needs_pod_information {κ : Type} {g : Fixes} (hg : g.comma = true) {encode : CertData → κ} {decode : κ → CertData}
+    (hdec : ∀ d, decode (encode d) = d) {srv : Server} {ctx : Ctx} {results : List AuthRes} {req : Request} {now : Int}
+    {chain : List (Entry κ)} (himp : req.impersonated ≠ "")
+    (hnopod : ∀ c, AuthRes.ok c ∈ results → c.kube = {})
+    (h : createCertificateFull g encode srv ctx results req now = .ok chain) :
+    ∃ na, srv.nodeAuth = some na ∧ ("", "") ∈ na.trusted := by
+  obtain ⟨caller, na, _, _, _, _, _, _, _, _, hmem, hna, htr, _⟩ := impersonation_through_chain hg hdec himp h
+  have := hnopod caller hmem
+  rw [this] at htr
+  exact ⟨na, hna, htr⟩
+
+/-- the results of the OIDC, XFCC and client-certificate authenticators carry no pod information -/
+theorem nonkube_results_without_pod_information :
+    (∀ fixed td e t vals verify c, oidcEntry fixed td e t vals verify = .ok c → c.kube = {}) ∧
+    (∀ cidrs addr hs p c, xfccAuthenticate cidrs addr hs p = .ok c → c.kube = {}) ∧
+    (∀ k chains c, certAuthenticate k chains = .ok c → c.kube = {}) := by
+  refine ⟨?_, ?_, ?_⟩
+  · intro fixed td e t vals verify c h
+    obtain ⟨tok, _, hoidc⟩ := oidc_entry_identity h
+    obtain ⟨_, _, _, _, _, _, _, _, _, hc⟩ := oidc_identity_from_sub hoidc
+    rw [hc]
+  · intro cidrs addr hs p c h
+    obtain ⟨_, _, es, _, _, hc, _⟩ := xfcc_identity_from_trusted_header h
+    rw [hc]
+  · intro k chains c h
+    obtain ⟨_, vs, rest, more, _, hc⟩ := cert_identity_from_leaf_san h
+    rw [hc]
+
 /-- The ambient flow end to end (non-vacuity): a node proxy authenticates with its Kubernetes token
     (reviewed by the primary cluster for audience istio-ca) and obtains the identity of workload
     a/b running on its node. -/
